@@ -1,0 +1,12 @@
+//go:build verif
+
+package nsqlookupd
+
+import "net"
+
+// VerifWrapTCPListener replaces the TCP listener the daemon's accept loop
+// (protocol.TCPServer, started by Main) will use by wrap(listener).  To be called
+// between New and Main; the wrapper must pass Close and Addr through.
+func (l *NSQLookupd) VerifWrapTCPListener(wrap func(net.Listener) net.Listener) {
+	l.tcpListener = wrap(l.tcpListener)
+}
